@@ -30,15 +30,18 @@ FILES = {
     "d1/h.h": "int h1;\n#define H1\n",
     "d2/t.c": '#include "h.h"\nint t2;\n#ifdef H1\nint leak_h1;\n#endif\n',
     "d2/h.h": "int h2;\n",
-    "once.h": "#pragma once\nint po;\n#ifdef X\nint pox;\n#endif\n",
+    "once.h": "#pragma once\n#define ONCE_SEEN\nint po;\n#ifdef X\nint pox;\n#endif\n",
     "cnt.h": "int cnt;\n#ifdef X\nint cntx;\n#endif\n",
-    "c.c": '#include "once.h"\n#include "once.h"\n#include "cnt.h"\nint c;\n',
-    "e.c": '#include "once.h"\n#ifdef X\nint ex;\n#endif\n#define STR(x) #x\n#define XSTR(x) STR(x)\n#include XSTR(P)\nint e;\n',
+    "c.c": '#include "once.h"\n#include "once.h"\n#include "cnt.h"\nint c;\n#ifdef ONCE_SEEN\nint cseen;\n#else\nint cnot;\n#endif\n',
+    "e.c": '#include "once.h"\n#ifdef X\nint ex;\n#endif\n#define STR(x) #x\n#define XSTR(x) STR(x)\n#include XSTR(P)\nint e;\n#ifdef ONCE_SEEN\nint eseen;\n#else\nint enot;\n#endif\n',
     "f.cu": "int f;\n#if defined(__CUDA_ARCH__) && __CUDA_ARCH__ >= 800\nint amp;\n#endif\n#ifdef __CUDACC__\nint cc;\n#endif\n#ifdef X\nint fx;\n#endif\n",
     "never.c": "int never;\n",
     "lvl.h": "#define LEVEL BASE\n#if LEVEL > 1\nint hi;\n#else\nint lo;\n#endif\n#if defined(BASE) && BASE == 1\nint one;\n#endif\n",
     "g.c": '#include "lvl.h"\nint g;\n',
     "g2.c": '#include "lvl.h"\nint g2;\n',
+    # the same file compiled with two -I lists that resolve its quoted include differently
+    "cfgA/config.h": "#define FAST 1\nint cfg_a;\n", "cfgB/config.h": "int cfg_b;\n",
+    "kern.c": '#include "config.h"\n#ifdef FAST\nint fast;\n#else\nint slow;\n#endif\n',
 }
 COMMANDS = [
     ("a.c", "/usr/bin/gcc", []),
@@ -53,6 +56,8 @@ COMMANDS = [
     ("f.cu", "nvcc", ["-DX"]),
     ("g.c", "/usr/bin/gcc", ["-DBASE=2"]),
     ("g2.c", "/usr/bin/gcc", ["-DBASE=1"]),
+    ("kern.c", "/usr/bin/gcc", ["-I", "cfgA"]),
+    ("kern.c", "/usr/bin/gcc", ["-I", "cfgB"]),
 ]
 
 _entries = {}
@@ -227,7 +232,7 @@ def run(tier):
     jobs += [{"p": s} for s in seqs1]
     seqs2 = [list(s) for k in (1, 2) for s in itertools.product(idx, repeat=k)]
     if tier == "quick":
-        step = 3
+        step = 6
         pairs = [(a, b) for i, a in enumerate(seqs2) for j, b in enumerate(seqs2) if (i + j + env.SEED) % step == 0]
     else:
         pairs = [(a, b) for a in seqs2 for b in seqs2]
@@ -258,7 +263,7 @@ def run(tier):
         "rule": "all command sequences of length <=3 over %d commands for one platform; %s pairs of sequences of length <=2 for two platforms%s; "
                 "state = observable association (file, line, platform set); invariant = union of fresh single-command analyses; "
                 "plus -p projections through codebasin and cbi-tree for every subset of a 3-platform analysis" % (
-                    nC, "every third of all" if tier == "quick" else "all", "; triples of single commands for three platforms" if tier == "thorough" else ""),
+                    nC, "every sixth of all" if tier == "quick" else "all", "; triples of single commands for three platforms" if tier == "thorough" else ""),
         "commands": [_cmd(i) for i in idx], "histories": n, "failing_cases": sum(r[1] for r in res),
         "samples": [{"platforms": {"p": [_cmd(0), _cmd(1)]}}, {"platforms": {"p": [_cmd(2)], "q": [_cmd(3), _cmd(5)]}}],
         "exhaustive": True,
